@@ -58,7 +58,7 @@ def run(ctx):
     if res and not bad and not missing:
         ok, log, failed = ctx.build(['AthlibVerif.Oblig.C04.' + k for k in good] + ['AthlibVerif.Props.C04'])
         if ok:
-            ctx.audit(['AthlibVerif.Props.C04'], ['AthlibVerif.Props.C04.C04'])
+            ctx.audit(['AthlibVerif.Props.C04'], ['AthlibVerif.Props.C04.C04', 'AthlibVerif.symTable_covers', 'AthlibVerif.symOf_spec'])
             if not ctx.quick():
                 ctx.leanchecker(['AthlibVerif.Props.C04', 'AthlibVerif.Lemmas.RegexSound'])
     elif good:
